@@ -57,6 +57,8 @@ type toolPlan struct {
 	Canonical bool     `json:"canonical,omitempty"`
 	NoDir     bool     `json:"no_dir,omitempty"` // fault run: target directory missing (no verdict)
 	Env       []string `json:"env,omitempty"`    // additions to the tool's process environment (variables it is seen to read)
+	// GoMaxProcs: the size of the machine as the tool's runtime sees it (0 = inherited)
+	GoMaxProcs int `json:"gomaxprocs,omitempty"`
 }
 
 func (p *toolPlan) faultRun() bool {
@@ -245,6 +247,10 @@ func (g *c17Engine) run(tp *toolPlan) (*toolVerdict, map[string]int, error) {
 	if tp.FragSeed != 0 {
 		env = append(env, "BIP39_VERIF_FRAG="+strconv.FormatUint(tp.FragSeed, 10))
 		stats["runs_with_fragmented_bodies"]++
+	}
+	if tp.GoMaxProcs > 0 {
+		env = append(env, "GOMAXPROCS="+strconv.Itoa(tp.GoMaxProcs))
+		stats["runs_with_seeded_gomaxprocs"]++
 	}
 	if len(tp.Env) > 0 {
 		env = append(env, tp.Env...)
@@ -649,6 +655,9 @@ func CheckC17(e *Env) (int, error) {
 	e.Logf("C17: %d tool runs (map ranges rewritten: %d, uncontrolled ranges: %d)", n, rep.MapRanges, rep.OtherRanges)
 	e.Parallel(n, func(i int) {
 		tp := genToolPlan(plan.Derive(e.Seed, "C17/run", uint64(i)), i)
+		if i%3 == 1 { // the size of the machine: a tool that fetches or renders in parallel sizes its workers by it
+			tp.GoMaxProcs = []int{1, 2, 3, 4, 5, 6, 7, 8, 9, 12}[(i/3)%10]
+		}
 		if len(envNames) > 0 && i%8 == 5 { // the environment is no input file: one variable the tool is seen to read, set
 			k := i / 8
 			tp.Env = []string{envNames[k%len(envNames)] + "=" + envVals[(k/len(envNames))%len(envVals)]}
